@@ -563,10 +563,14 @@ class C09Monitor(explore.Monitor):
         all(x.endswith("is no table's raw / record-card section]") and " colRef 0 " in x for x in probs):
       return "field without column in an orphaned ex-raw section of a removed summary table"
     causes = detail.get("causes") or []
-    route = next((k for k in ("UpdateSummaryViewSection", "DetachSummaryViewSection", "RemoveColumn",
-                              "RemoveRecord", "BulkRemoveRecord", "ModifyColumn", "RemoveTable",
-                              "ApplyUndoActions")
-                  if any(isinstance(a, list) and a and a[0] == k for a in bundle)), kinds)
+    names = [a[0] for a in bundle if isinstance(a, list) and a]
+    if "UpdateSummaryViewSection" in names or "DetachSummaryViewSection" in names:
+      route = "a summary-section action on it"
+    elif any(isinstance(a, list) and a and (a[0] == "RemoveColumn" or (
+        a[0] in ("RemoveRecord", "BulkRemoveRecord") and a[1] == "_grist_Tables_column")) for a in bundle):
+      route = "the removal of a group-by source column"
+    else:
+      route = kinds
     if clause == "C09.field_col_in_section_table" and causes and "?" not in causes:
       return "field of a re-grouped summary section left on the old table's column: " + "; ".join(causes)
     if clause == "C09.section_has_view" and causes == ["ex-raw section of a removed summary table"]:
@@ -670,9 +674,6 @@ WITNESSES = [
   ("summary", [[["AddRecord", "_grist_Views_section_field", None, {"parentId": 5, "colRef": 8}]],
                [["UpdateSummaryViewSection", 5, [4]]]],
    "regroup-summary-section-with-two-fields-of-one-column", _NoRequires),
-  # the raw section #4 of A_summary_cat follows its widget to A_summary; A_summary_cat is removed
-  ("summary", [[["RemoveColumn", "A", "cat"]]],
-   "remove-groupby-source-column-orphans-raw-section", C09Monitor),
 ]
 
 
